@@ -1100,12 +1100,13 @@ package psatoken
 
 //@ bounded[C09,C07] cbor-round-trip : 32 valid claims-sets (both profiles x 16 optional-claim / hash-size / 1..4-component / text / client-id combinations) and 32 sets damaged in one claim, plus 32 valid sets of two registered extension profiles (one derived from each base profile, two extra optional claims); thorough tier: 192 valid claims-sets :: boundedCBORRoundTrip()
 //@ bounded[C10] wire-format : the same 32 valid claims-sets, output parsed by an independent definite-length CBOR reader; thorough tier: 192 valid claims-sets :: boundedWireFormat()
-//@ bounded[C04] acceptance : tokens assembled by an independent CBOR writer, one claim at a time through every value class (absent, null, undefined, boolean, 12 byte-string lengths, wrong major types incl. a byte string where text is expected, out-of-width integers, float), both profiles, unknown extra key, rotated key order, indefinite / trailing / unknown-profile tokens; verdict compared with an independent oracle; getters of two accepted three-component tokens compared with the values the independent writer put on the wire (order, optional fields, extreme integers); thorough tier: every byte-string length 0..70 :: boundedAcceptance()
+//@ bounded[C04,C09] acceptance : tokens assembled by an independent CBOR writer, one claim at a time through every value class (absent, null, undefined, boolean, 12 byte-string lengths, wrong major types incl. a byte string where text is expected, out-of-width integers, float), both profiles, unknown extra key, rotated key order, indefinite / trailing / unknown-profile tokens; verdict compared with an independent oracle; getters of two accepted three-component tokens compared with the values the independent writer put on the wire (order, optional fields, extreme integers); thorough tier: every byte-string length 0..70 :: boundedAcceptance()
 //@ bounded[C12] json-round-trip : the same 32 valid claims-sets and 32 extension-profile sets through JSON and through CBOR->JSON->CBOR; member names, base64, no null members; thorough tier: 192 valid claims-sets :: boundedJSONRoundTrip()
 
 // ---------------------------------------------------------------- bounded audits of the assumed go-cose / crypto contracts and of library thread-safety
 
 //@ bounded[C06] alloc-audit : 221 adversarial CBOR inputs (headers of major types 2..6 declaring 2^8 .. 2^63 bytes / entries with nothing, little or a map around them; nesting depths 16 .. 65000 of arrays, maps and tags; a 64 KiB honest token) and 12 JSON inputs (nesting 100 .. 32000, 60 KB strings / names / numbers) through every decode entry point incl. the embedding-aware populate helpers of an extension profile; allocation (runtime.MemStats.TotalAlloc) <= 1 MiB + 1 KiB per input byte and 5 s per call :: boundedAllocAudit()
+//@ bounded[C18] read-only : 96 claims-sets (32 valid, 32 damaged, 32 of two extension profiles): deep structural snapshot, getter results, Validate verdict, CBOR and JSON encodings before vs after a series of read-side calls, each repeated; claims decoded from CBOR / JSON and Evidence decoded from a signed token compared before vs after the caller's input buffer is overwritten (getters, verification with the right and with another key, Evidence JSON); verification and reading on the signing Evidence :: boundedReadOnly()
 //@ bounded[C02,C03] tamper : 5 pairs of ES256 tokens over the valid claims-sets: every single-bit flip, every truncation, payload / signature / protected-header splices between two tokens, arbitrary signature bytes, the other key; thorough tier: 48 ES256, 4 ES384, 4 ES512, 4 EdDSA and 2 PS256 token pairs :: boundedTamper()
 //@ bounded[C20] envelope : envelopes from an independent CBOR writer: tags 0..30 and none, array lengths 0..6, each of the four elements replaced by 8 other item types, wrapped / null / array / empty / integer payloads, trailing bytes :: boundedEnvelope()
 //@ bounded[C19,C03] histories : all operation sequences of length <= 4 over {Sign ok, Sign with failing signer, Sign with empty signature, Sign with an unsupported algorithm and a junk signature, ValidateAndSign on invalid claims, UnmarshalCOSE genuine, UnmarshalCOSE garbage} on one Evidence (2 800 sequences); thorough tier: length <= 5 (19 607 sequences) :: boundedHistories()
